@@ -10,13 +10,6 @@ Open Scope Z_scope.
 Definition w_catalog : list op :=
   [OCreate 1 1 2 3 2; ODml 1 [(1, 1)] [BStore 1 0 4; BStore 1 1 5; BStore 101 1 6] []; OCreate 2 7 2 8 2].
 
-(* class 1: a process kill while CatalogPersistence::save has truncated turdb.catalog and not yet
-   rewritten it: Database::open fails although table t1 and its row were acknowledged *)
-Lemma kill_catalog_torn_refuted_l :
-  exists os i n, wf_run init os = true /\ quiet (at_pos os i n) = true
-    /\ In 1 (tabs (at_pos os i n)) /\ r_open (recover Kill (at_pos os i n)) = false.
-Proof. exists w_catalog, 2%nat, 12%nat. vm_compute. repeat split; auto. Qed.
-
 (* class 3: pages stored behind the dirty tracker's back are not in the power-loss image:
    after the acknowledged CREATE TABLE the root page (1,1) of the new table is missing, and
    after the acknowledged INSERT the header page (1,0) is the one written at creation *)
